@@ -1287,8 +1287,40 @@ func (p *pkgCtx) rewriteConcurrency(fc *fileCtx) {
 		switch x := n.(type) {
 		case *ast.GoStmt:
 			fc.need["vsched"] = true
-			fc.repl(x.Go, x.Call.Pos(), "vsched.Go(func() { ")
-			fc.ins(x.Call.End(), " })", 6)
+			if _, lit := x.Call.Fun.(*ast.FuncLit); lit && len(x.Call.Args) == 0 {
+				fc.repl(x.Go, x.Call.Pos(), "vsched.Go(func() { ")
+				fc.ins(x.Call.End(), " })", 6)
+				break
+			}
+			// the function value and the arguments of a go statement are evaluated when the
+			// statement executes, not when the goroutine starts: bind them first
+			//   go f(a, b)  ->  func() { vsimF, vsimA0, vsimA1 := f, a, b; vsched.Go(func() { vsimF(vsimA0, vsimA1) }) }()
+			names := []string{"vsimF"}
+			call := "vsimF("
+			for i := range x.Call.Args {
+				n := fmt.Sprintf("vsimA%d", i)
+				names = append(names, n)
+				if i > 0 {
+					call += ", "
+				}
+				call += n
+			}
+			if x.Call.Ellipsis.IsValid() {
+				call += "..."
+			}
+			call += ")"
+			fc.repl(x.Go, x.Call.Fun.Pos(), "func() { "+strings.Join(names, ", ")+" := ")
+			if len(x.Call.Args) > 0 {
+				fc.repl(x.Call.Lparen, x.Call.Lparen+1, ", ")
+			} else {
+				fc.repl(x.Call.Lparen, x.Call.Lparen+1, "")
+			}
+			end := "; vsched.Go(func() { " + call + " }) }()"
+			if x.Call.Ellipsis.IsValid() {
+				fc.repl(x.Call.Ellipsis, x.Call.Rparen+1, end)
+			} else {
+				fc.repl(x.Call.Rparen, x.Call.Rparen+1, end)
+			}
 		case *ast.SendStmt:
 			fc.ins(x.Chan.Pos(), "(", 3)
 			fc.repl(x.Chan.End(), x.Value.Pos(), ").Send(")
